@@ -17,8 +17,12 @@ RULES = {
     "analysis (S1); graph_stack pushes and pops are paired on every path",
     "R3": "boundedness: the frontier validation (raise on a required value not covered by the inputs) comes after the "
     "traversal and dominates the normal return; the traversal stops at the given inputs and records initializers",
+    "R4": "ownership anchors are owning graphs: a parameter that the region search / capture analysis compares by identity "
+    "with `<value>.graph` receives, at every call site (followed up through forwarding parameters), an expression whose "
+    "inferred classes are all Graph - a GraphView or Function is never the `.graph` of a value, so the test would be "
+    "constantly false and captured outer values would be skipped",
 }
-FLOORS = {"R1": 1, "R2": 4, "R3": 3}
+FLOORS = {"R1": 1, "R2": 4, "R3": 3, "R4": 2}
 EXPLANATION = (
     "Return-value provenance of extract(), sibling agreement of the two subgraph-attribute branches, push/pop pairing "
     "and dominance of the boundary validation over the result."
@@ -32,7 +36,90 @@ EX = "onnx_ir._convenience._extractor"
 IU = "onnx_ir.analysis._implicit_usage"
 
 
+def _anchor_params(ctx, f) -> set[str]:
+    """Parameters of f compared by identity with <Value-typed>.graph."""
+    out = set()
+    for n in own_nodes(f.node):
+        if isinstance(n, ast.Compare) and len(n.ops) == 1 and isinstance(n.ops[0], (ast.Is, ast.IsNot)):
+            a, b = n.left, n.comparators[0]
+            for x, y in ((a, b), (b, a)):
+                if isinstance(x, ast.Attribute) and x.attr == "graph" and isinstance(y, ast.Name) and y.id in f.params \
+                        and (not ctx.typer.recv_classes(f, x.value) or any(k.name == "Value" for k in ctx.typer.recv_classes(f, x.value))):
+                    out.add(y.id)
+    return out
+
+
+def _arg_for(call: ast.Call, g, param: str):
+    if param in g.params:
+        i = g.params.index(param)
+        if i < len(call.args) and not any(isinstance(a, ast.Starred) for a in call.args[: i + 1]):
+            return call.args[i]
+    for k in call.keywords:
+        if k.arg == param:
+            return k.value
+    return None
+
+
+def _narrowed(f, call, name: str):
+    """Classes `name` is narrowed to by enclosing `if isinstance(name, T)` tests (T as written), or None."""
+    p = getattr(call, "_parent", None)
+    prev = call
+    while p is not None and p is not f.node:
+        if isinstance(p, ast.If) and prev in p.body:
+            for t in ast.walk(p.test):
+                if isinstance(t, ast.Call) and dotted_of(t.func) == "isinstance" and len(t.args) == 2 and norm(t.args[0]) == name:
+                    return t.args[1]
+        prev, p = p, getattr(p, "_parent", None)
+    return None
+
+
+def rule_r4(ctx):
+    repo, ty = ctx.repo, ctx.typer
+    graph_cls = repo.cls("onnx_ir._core:Graph")
+    funcs = [f for mn in (EX, IU) for f in repo.modules[mn].all_funcs]
+    anchors = {(f.key, p) for f in funcs for p in _anchor_params(ctx, f)}
+    ctx.require(bool(anchors), "no ownership-anchor parameter (compared by identity with <value>.graph) found")
+    ctx.tables["ownership anchor parameters"] = sorted(f"{k}({p})" for k, p in anchors)
+    work, done, n = list(anchors), set(), 0
+    by_key = {f.key: f for f in funcs}
+    while work:
+        key, param = work.pop()
+        if (key, param) in done:
+            continue
+        done.add((key, param))
+        g = by_key[key]
+        for f in funcs:
+            for c in calls_in(f):
+                hits, _ = ty.callees(f, c, False)
+                if g not in hits:
+                    continue
+                arg = _arg_for(c, g, param)
+                if arg is None:
+                    continue
+                if isinstance(arg, ast.Name) and arg.id in f.params and not any(
+                        isinstance(x, (ast.Assign, ast.AnnAssign)) and any(norm(t) == arg.id for t in (x.targets if isinstance(x, ast.Assign) else [x.target]))
+                        for x in own_nodes(f.node)):
+                    work.append((f.key, arg.id))  # forwarded parameter: the obligation moves to f's callers
+                    ctx.ob("R4", f"{f.local} forwards its parameter {arg.id} to {g.local}({param})", True, nontrivial=False, how="followed to the callers")
+                    continue
+                n += 1
+                classes = [a[1] for a in ty.type_of(f, arg) if a[0] == "cls"]
+                if isinstance(arg, ast.Name):
+                    nt = _narrowed(f, c, arg.id)
+                    if nt is not None:
+                        classes = [a[1] for a in ty.ann(nt, f.module) if a[0] == "cls"] or classes
+                bad = [k for k in classes if not repo.is_subclass(k, graph_cls)]
+                ctx.check("R4", f"{f.local}: {g.local}({param}={norm(arg)}) is an owning graph", not bad, f, c,
+                          f"`{norm(arg)}` may be a {'/'.join(sorted(k.name for k in bad))}, which is never the `.graph` of a value: the identity "
+                          f"test in {g.local} is then always false, so outer-scope values captured by nested subgraphs are not followed "
+                          "and their producers / initializers are left out of the extracted region",
+                          how="inferred classes of the argument (declared/assigned types, isinstance narrowing) ⊆ Graph",
+                          construct=f"{g.local}({param}={norm(arg)})")
+    ctx.require(n >= 1, "no call site supplies an ownership anchor")
+
+
 def run(ctx):
+    rule_r4(ctx)
     repo = ctx.repo
     f = repo.func(f"{EX}:extract")
     rets = [n for n in own_nodes(f.node) if isinstance(n, ast.Return)]
